@@ -23,18 +23,19 @@ func epNullRule(c *Ctx, p *Prog, rule string) {
 		return ok && s == "Board.EnPassant"
 	}
 	n := 0
-	for _, fn := range p.OwnFuncs() {
-		switch relPkg(fnPkgPath(fn)) {
-		case "board", "movegen", "uci", "search", "heur", "eval":
-		default:
-			continue
-		}
-		ord := 0
-		allInstrs(fn, func(in ssa.Instruction) {
-			ld, ok := in.(*ssa.UnOp)
-			if !ok || !isEPLoad(ld) {
+	ords := map[*ssa.Function]int{}
+	doneParam := map[ssa.Value]bool{}
+	var analyse func(fn *ssa.Function, ld ssa.Value, isRoot func(ssa.Value) bool, depth int)
+	analyse = func(fn *ssa.Function, ld ssa.Value, isRoot func(ssa.Value) bool, depth int) {
+		if _, isPar := ld.(*ssa.Parameter); isPar {
+			if doneParam[ld] {
 				return
 			}
+			doneParam[ld] = true
+		}
+		{
+			ord := ords[fn]
+			defer func() { ords[fn] = ord }()
 			// uses, through conversions and phis
 			type use struct {
 				in   ssa.Instruction
@@ -84,6 +85,32 @@ func epNullRule(c *Ctx, p *Prog, rule string) {
 						}
 					case *ssa.Call:
 						f := calleeObj(x)
+						// handed to a function of the program: the parameter is examined there in the same way
+						isRev := false
+						if f != nil {
+							if sig, _ := f.Type().(*types.Signature); sig != nil && sig.Recv() != nil {
+								t := sig.Recv().Type()
+								if pt, ok := t.(*types.Pointer); ok {
+									t = pt.Elem()
+								}
+								if nmd, ok := types.Unalias(t).(*types.Named); ok && nmd.Obj().Name() == "Reverse" {
+									isRev = true
+								}
+							}
+						}
+						if h := x.Call.StaticCallee(); !isRev && h != nil && isOwn(h) && h.Blocks != nil && depth < 2 && (relPkg(fnPkgPath(h)) == "board" || relPkg(fnPkgPath(h)) == "movegen") {
+							followed := false
+							for ai, a := range x.Call.Args {
+								if a == v && ai < len(h.Params) {
+									par := h.Params[ai]
+									analyse(h, par, func(w ssa.Value) bool { return stripConv(w) == ssa.Value(par) }, depth+1)
+									followed = true
+								}
+							}
+							if followed {
+								continue
+							}
+						}
 						if f != nil {
 							if sig, _ := f.Type().(*types.Signature); sig != nil && sig.Recv() != nil {
 								t := sig.Recv().Type()
@@ -123,7 +150,7 @@ func epNullRule(c *Ctx, p *Prog, rule string) {
 						continue
 					}
 					for _, pr := range [][2]ssa.Value{{bo.X, bo.Y}, {bo.Y, bo.X}} {
-						if k, isc := constOf(pr[1]); isc && k == 0 && isEPLoad(pr[0]) {
+						if k, isc := constOf(pr[1]); isc && k == 0 && isRoot(pr[0]) {
 							if (bo.Op == token.NEQ) == truth {
 								guarded = true
 							}
@@ -140,6 +167,21 @@ func epNullRule(c *Ctx, p *Prog, rule string) {
 					c.Undec(rule, key, u.in.Pos(), "Board.EnPassant is %s without a dominating test that it is non-zero; whether the empty state (0 = a1) can be misread here is not decided", u.kind)
 				}
 			}
+		}
+	}
+	for _, fn := range p.OwnFuncs() {
+		switch relPkg(fnPkgPath(fn)) {
+		case "board", "movegen", "uci", "search", "heur", "eval":
+		default:
+			continue
+		}
+		fn := fn
+		allInstrs(fn, func(in ssa.Instruction) {
+			ld, ok := in.(*ssa.UnOp)
+			if !ok || !isEPLoad(ld) {
+				return
+			}
+			analyse(fn, ld, isEPLoad, 0)
 		})
 	}
 	c.Floor(rule, n, 4, "uses of Board.EnPassant as a square")
